@@ -163,6 +163,10 @@ def query(ctx, name, wrapper, wdefs, harness, entry, hdefs=(), u0=3, umax=130, t
     """one E1 query incl. witness twin, differential self-check, native replay of counterexamples.
     returns status string; reports violations / inconclusive results into ctx."""
     t0 = time.time()
+    left = getattr(ctx, 'deadline', t0 + 10**9) - t0
+    if left < 30:
+        ctx.skipped.append(name); return 'SKIPPED'
+    timeout = min(timeout, max(30, left - 10))
     try:
         cpath, m = translate(ctx, wrapper, wdefs, flavour)
     except ir2c.Unsupported as ex:
